@@ -395,9 +395,9 @@ pub fn case_mode(ctx: &mut Ctx, xml: &str, fragment: bool, ex: &Expect) {
     }
 }
 
-/// The faults the parser rejects since /repo 6153ddf, a5dcf8e, 002854f: accepted, or rejected with
+/// The faults the parser rejects since /repo 6153ddf, a5dcf8e, 002854f, a5fafb0: accepted, or rejected with
 /// another variant, they are filed under the signature of the repaired finding.
-const RESERVED_FAULTS: &[&str] = &["reserved-prefix-or-namespace-rebound", "prefixed-undeclaration", "pi-target-xml"];
+const RESERVED_FAULTS: &[&str] = &["reserved-prefix-or-namespace-rebound", "prefixed-undeclaration", "pi-target-xml", "colon-without-prefix"];
 
 /// The error variant a fault has to be rejected with, where the catalogue entry pins it down.
 fn fault_variant(fault: &str) -> Option<&'static str> {
@@ -406,6 +406,7 @@ fn fault_variant(fault: &str) -> Option<&'static str> {
         "duplicate-xml-id" | "duplicate-xml-id-after-normalisation" => Some("DuplicateId"),
         "reserved-prefix-or-namespace-rebound" | "prefixed-undeclaration" => Some("InvalidNamespaceDeclaration"),
         "pi-target-xml" => Some("InvalidTarget"),
+        "colon-without-prefix" => Some("UnknownPrefix"),
         _ => None,
     }
 }
@@ -432,6 +433,8 @@ fn fault_signature(fault: &str) -> String {
         "prefixed-undeclaration-accepted".into()
     } else if fault == "pi-target-xml" {
         "pi-target-xml-accepted-serialisation-rejected".into()
+    } else if fault == "colon-without-prefix" {
+        "name-with-colon-without-prefix-accepted".into()
     } else if fault == "ill-formed-reference-in-namespace-declaration" {
         "ill-formed-namespace-declaration-value-accepted".into()
     } else {
@@ -499,12 +502,11 @@ pub const CORPUS: &[&str] = &[
     "<a xmlns:p=''><p:b/></a>",
     "<a xmlns:xml='http://www.w3.org/XML/1998/namespace' xml:id='i'/>",
     // C17 slices: the witness of Props/C17 (sliceWitness), runs that start / end inside a CDATA
-    // section or contain an empty one, names written with a leading colon
+    // section or contain an empty one (names written with a leading colon, `<:a/>`, `<a :b='1'/>`,
+    // are rejected since /repo a5fafb0: build_faults::PINNED_REJECTS, fault colon-without-prefix)
     "<p:a xmlns:p=\"u\" b=\"x&#10;y\">t&lt;<![CDATA[c]]><!--k--><?pi d?></p:a>",
     "<a><![CDATA[x]]>y<![CDATA[]]>&amp;<![CDATA[z\r]]></a>",
     "<a>x<![CDATA[]]></a>",
-    "<:a/>",
-    "<a :b='1'/>",
     // C03_accepted_*: the witnesses of Props/C03.lean and what the tokenizer lets through
     "<a xmlns:p='' p:xmlns='v'/>",
     "<a xmlns:xml='' xmlns:p='http://www.w3.org/XML/1998/namespace' p:id='i'/>",
@@ -512,7 +514,6 @@ pub const CORPUS: &[&str] = &[
     "<a><?xml?></a>",
     "<a><?XML x?></a>",
     "<a><?a:b x?></a>",
-    "<:a :b='1'/>",
     "<r xmlns=\"urn:a\" xmlns:p=\"urn:b\" k=\"&lt;&#x41;&amp;\"><p:c xml:id=\" i \"/><![CDATA[x]]>y&#xD;<!--c--><?t d?><e xmlns=\"\"/></r>",
     "<a xmlns:p='http://www.w3.org/2000/xmlns/'><p:b/></a>",
     // line ends in comments and PI data (normalised since /repo f8655b7)
